@@ -332,15 +332,16 @@ Section Corollaries.
   Proof.
     destruct (session_outcome hm cs1 cs2 t lost) as (Hf & _ & _).
     fold received W s in Hf. rewrite Hf. unfold expected_fired.
-    destruct (head_of W) as [[c f]|].
+    unfold W, received in *. unfold bytes in *.
+    destruct (head_of (whole_events hm (concat (cs1 ++ cs2)))) as [[c f]|].
     - split; [cbn; lia|]. split; [reflexivity|]. split.
       + intro c'. split.
         * intros [=]; subst; eauto.
         * intros (f' & [=]); subst; reflexivity.
       + discriminate.
-    - split; [destruct (lost || failed W); cbn; lia|]. split; [intros ->; reflexivity|]. split.
+    - split; [destruct (lost || failed _); cbn; lia|]. split; [intros ->; reflexivity|]. split.
       + intro c'. split.
-        * destruct (lost || failed W); [destruct (is_nil received)|]; discriminate.
+        * destruct (lost || failed _); [destruct (is_nil _)|]; discriminate.
         * intros (f & [=]).
       + intros _ ->. reflexivity.
   Qed.
@@ -370,9 +371,10 @@ Section Corollaries.
   Proof.
     destruct (session_outcome hm cs1 cs2 t lost) as (_ & _ & Hc).
     fold received W s in Hc. rewrite Hc. unfold expected_closed.
-    destruct (head_of W) as [[c f]|]; [|split; [cbn; lia | reflexivity]].
+    unfold W, received in *. unfold bytes in *.
+    destruct (head_of (whole_events hm (concat (cs1 ++ cs2)))) as [[c f]|]; [|split; [cbn; lia | reflexivity]].
     rewrite reason_table.
-    destruct (asked_for t && (lost || finished W || failed W || immediate f)); split; cbn; auto.
+    destruct (asked_for t && _); split; cbn; auto.
   Qed.
 End Corollaries.
 
